@@ -229,7 +229,15 @@ def gen_dom(rng, kind, force=None):
     return ('dom', kind, tag, bytes(payload), ep)
 
 
+# magnitudes at which the zarith encoding grows by a byte (6 bits in the first byte, 7 in each later one), either sign, and their
+# neighbours; the int64 / mutez limits
+INT_BOUNDARIES = sorted({s * (m + d) for k in range(0, 7) for m in [2 ** (6 + 7 * k)] for d in (-1, 0, 1) for s in (1, -1)}
+                        | {0, 1, -1, 127, 128, -127, -128, 255, 256, -255, -256, 2 ** 31, -2 ** 31, 2 ** 62, 2 ** 63 - 1, 2 ** 63, -2 ** 63, 2 ** 64})
+
+
 def gen_int(rng):
+    if rng.random() < 0.2:
+        return rng.choice(INT_BOUNDARIES)
     return rng.big_int(rng.choice([8, 64, 64, 300, 4096]))
 
 
